@@ -768,9 +768,15 @@ class Translator:
         return f'({ca} {sym} {cb})'
 
     # ------------------------------------------------------------------ statements (CPS)
-    def err(self, fn, name):
+    def err(self, fn, name, ctx=None):
+        """An exception.  A state-updating function reports the state as far as it was updated
+        when the exception was raised (Python keeps the assignments already made)."""
         fn.raises = True
-        return f'.error "{name}"' if fn.wrap == 'except' else 'PENDING_RAISE'
+        if fn.wrap != 'except':
+            return 'PENDING_RAISE'
+        if fn.state_fn and ctx is not None:
+            return f'.error ("{name}", {ctx.env["self"][0]})'
+        return f'.error "{name}"'
 
     def guard(self, ctx, ind, k):
         """Wrap the code produced by k(ctx, ind) in zero-divisor checks for the divisors the
@@ -787,7 +793,7 @@ class Translator:
         i2 = ind + '  '
         c2 = ctx.assume(f'({d} ≠ 0)', True)
         rest = self.guard(c2, i2, k)
-        return f'if {d} = 0 then\n{i2}{self.err(ctx.fn, e)}\n{ind}else\n{i2}{rest}'
+        return f'if {d} = 0 then\n{i2}{self.err(ctx.fn, e, ctx)}\n{ind}else\n{i2}{rest}'
 
     def block(self, stmts, ctx, k, ind):
         if not stmts:
@@ -814,7 +820,7 @@ class Translator:
             name = self.dotted(exc) if exc is not None else None
             if name is None:
                 raise Unsupported(f'`{ast.unparse(s)}`')
-            return self.err(ctx.fn, name.split('.')[-1])
+            return self.err(ctx.fn, name.split('.')[-1], ctx)
         if isinstance(s, (ast.Assign, ast.AugAssign)):
             if isinstance(s, ast.Assign):
                 if len(s.targets) != 1:
@@ -844,8 +850,10 @@ class Translator:
                         raise Unsupported(f'non-numeric value stored in self.{target.attr}')
                     s0 = c.env['self'][0]
                     fld = self.state['fields'][target.attr]
+                    c2 = c.forget(s0)
+                    c2.defs[f'{s0}.{fld}'] = self.toF(code, ty)
                     return (f'let {s0} : {self.state["struct"]} := {{ {s0} with {fld} := {self.toF(code, ty)} }}\n{i}'
-                            + cont(c.forget(s0), i))
+                            + cont(c2, i))
                 raise Unsupported(f'assignment target `{ast.unparse(target)}`')
             return self.guard(ctx, ind, emit)
         if isinstance(s, ast.If):
@@ -917,7 +925,7 @@ class Translator:
                                             (sorted(fn.ret_types)[0] if fn.ret_types else 'F'))
                 rty = self.T(ret)
                 if wrap == 'except':
-                    rty = f'Except String {rty}'
+                    rty = f'Except (String × {rty}) {rty}' if state_fn else f'Except String {rty}'
                 return fn, body, ret, rty, wrap
             want, wrap = new_want, new_wrap
         raise Unsupported(f'`{what}`: translation did not stabilise')
@@ -1333,7 +1341,76 @@ def unit_c15(repo):
     return files, index
 
 
-UNITS = {'C15': unit_c15}
+C12_STATE = {'struct': 'TC', 'fields': {
+    '_tempo': 'tempo', '_beat_dur': 'beatDur', '_base_seconds': 'baseSeconds', '_base_beats': 'baseBeats',
+    '_beats_per_bar': 'beatsPerBar', '_bars_per_beat': 'barsPerBeat', '_base_bar': 'baseBar',
+    '_base_bar_beat': 'baseBarBeat'}}
+C12_ASSUME = {
+    'self.running()': True,                                   # the clock is running (NRT: always)
+    'self.mode == _libsc3.main.NRT_MODE': True,               # no condition variable to notify
+    '_libsc3.main.current_tt._clock is not self': False,      # meter changes come from a routine on this clock
+    '_libsc3.main.current_tt._seconds': ('extern', 'now', 'F'),    # logical time of the calling routine
+    '_libsc3.main.elapsed_time()': ('extern', 'elapsed', 'F'),     # physical time
+}
+C12_FUNCS = [          # (python name, kind, argument type patterns)
+    ('beats2secs', 'method', ['F']), ('secs2beats', 'method', ['F']),
+    ('tempo', 'getter', ['']), ('tempo', 'setter', ['F']), ('etempo', 'method', ['F']),
+    ('beat_dur', 'getter', ['']), ('elapsed_beats', 'method', ['']),
+    ('beats', 'getter', ['']), ('beats', 'setter', ['F']),
+    ('beats_per_bar', 'getter', ['']), ('beats_per_bar', 'setter', ['F']),
+    ('base_bar', 'getter', ['']), ('base_bar_beat', 'getter', ['']),
+    ('next_time_on_grid', 'method', patterns(3) + [p + 'N' for p in patterns(2)]),
+    ('beats2bars', 'method', ['F']), ('bars2beats', 'method', ['F', 'I']),
+    ('bar', 'method', ['']), ('next_bar', 'method', ['F', 'N']), ('beat_in_bar', 'method', ['']),
+]
+
+
+def unit_c12(repo):
+    bmod = PyModule(Path(repo) / 'sc3' / 'base' / 'builtins.py')
+    ex = kernels_exec(bmod, C15_EXEC)          # the kernels live in C15/GenKernels.lean (imported)
+    n0 = len(ex.defs)
+    cmod = PyModule(Path(repo) / 'sc3' / 'base' / 'clock.py', aliases={'bi': bmod})
+    ex.assumptions = dict(C12_ASSUME)
+    ex.skip_calls = {'mdl.NotificationCenter.notify'}
+    ex.state = C12_STATE
+    infos = {}
+    for name, kind, sigs in C12_FUNCS:
+        for sig in sigs:
+            tys = [Static(None) if c == 'N' else c for c in sig]
+            infos[(name, kind, sig)] = ex.function(cmod, 'TempoClock', name, kind, tys)
+    rows = []
+    for sig in patterns(3) + [p + 'N' for p in patterns(2)]:
+        i = infos[('next_time_on_grid', 'method', sig)]
+        pat = ', '.join(f'.{"i" if c == "I" else "f"} a{k}' for k, c in enumerate(sig[:2]))
+        pat += ', ' + ('none' if sig[2] == 'N' else f'some (.{"i" if sig[2] == "I" else "f"} a2)')
+        args = ' '.join(['s'] + i['implicit'] + [f'a{k}' for k, c in enumerate(sig) if c != 'N'])
+        rhs = f'{i["lean"]} {args}'
+        if i['wrap'] != 'except':
+            rhs = f'.ok ({rhs})'
+        rows.append(f'    | {pat} => {rhs}')
+    ex.defs.append(('next_time_on_grid_D',
+                    '/-- `next_time_on_grid(quant, phase, refbeat)` on dynamically typed arguments\n'
+                    '    (`refbeat = none`: the current beat of the calling routine). -/\n'
+                    'def next_time_on_grid_D (s : TC) (now : Rat) (quant phase : Num) (refbeat : Option Num) :\n'
+                    '    Except String Rat :=\n    match quant, phase, refbeat with\n' + '\n'.join(rows) + '\n'))
+    local = ex.defs[n0:]
+    ex.defs = local
+    fields = '\n'.join(f'  {v} : Rat' for v in C12_STATE['fields'].values())
+    top = ('/-- The numeric private fields of `TempoClock` (clock.py `__init__`). -/\n'
+           f'structure TC where\n{fields}\nderiving Repr, DecidableEq\n')
+    hdr = ('Source: sc3/base/clock.py class TempoClock (time arithmetic, quantisation, meter); the numeric\n'
+           'kernels `bi.mod/round/roundup/floor/ceil` are the definitions of C15/GenKernels.lean.\n'
+           '`now` = logical time of the calling routine (`main.current_tt._seconds`), `elapsed` = physical\n'
+           'time (`main.elapsed_time()`); a state-updating function returns the new record.')
+    text = ex.render('Sc3Verif.C12.Gen', hdr, imports=['Sc3Verif.C15.GenKernels'], extra_top=top,
+                     opens=['Sc3Verif.C15.Gen'])
+    index = {'funcs': {f'{n}:{k}:{sg}': {kk: vv for kk, vv in i.items() if kk != 'params'}
+                       for (n, k, sg), i in infos.items()},
+             'assumptions': sorted(ex.used_assumptions)}
+    return {'Sc3Verif/C12/GenTempo.lean': text}, index
+
+
+UNITS = {'C15': unit_c15, 'C12': unit_c12}
 
 
 def generate(prop, repo=None, write=True):
